@@ -177,3 +177,25 @@ func separatorSweep() []string {
 	})
 	return sepItems
 }
+
+// ---- glued tokens -------------------------------------------------------------------------------------
+
+var (
+	gluedOnce  sync.Once
+	gluedItems []string
+)
+
+// gluedTokens: a literal / number / closing token immediately followed (no blank) by a keyword or word, in
+// attack position: where one lexer stops is where the next token starts.
+func gluedTokens() []string {
+	gluedOnce.Do(func() {
+		lefts := []string{"0x41", "0b01", "x'41'", "b'01'", "1e5", "1.5", "1f", "2.0d", "1", "'a'", "@a", "`a`", ")", "1.", "0x", "1e", "n'a'", "$a$b$a$", "q'(a)'", "\\N", "]", "a"}
+		rights := []string{"union", "or", "and", "like", "user()", "select", "in", "not", "is", "xor", "div", "mod", "p", "y", "u", "e1", "x41"}
+		for _, l := range lefts {
+			for _, r := range rights {
+				gluedItems = append(gluedItems, "1 or "+l+r+" select 1", "1 "+r+" "+l+r+" 1", l+r, "1' or "+l+r+" --", "1 union select "+l+r)
+			}
+		}
+	})
+	return gluedItems
+}
